@@ -161,6 +161,7 @@ class Interp:
         self.isinstance_hook = None
         self.attr_hook = None
         self.method_hook = None
+        self.skip_functions = set()  # 'Class.method' names whose calls are no-ops in the model
         self.module_globals = {}
         self.overrides.setdefault("set", lambda x=(): self._make_set(x, set))
         self.overrides.setdefault("frozenset", lambda x=(): self._make_set(x, frozenset))
@@ -175,6 +176,8 @@ class Interp:
 
     def call_closure(self, clo: Closure, args, kwargs):
         node = clo.node
+        if clo.name in self.skip_functions or (clo.cls is not None and f"{clo.cls.name}.{getattr(node, 'name', '')}" in self.skip_functions):
+            return None
         self.depth += 1
         if self.depth > self.max_depth:
             self.depth -= 1
@@ -648,6 +651,8 @@ class Interp:
         if isinstance(obj, dict):
             k = _hashable(key)
             if k not in obj:
+                if hasattr(obj, "default_factory") and obj.default_factory is not None:
+                    return obj[k]
                 raise LiftRaise(f"KeyError: {k!r}", node)
             return obj[k]
         if isinstance(obj, Obj) and "__getitem__" in obj.attrs:
@@ -1158,6 +1163,9 @@ BUILTINS = {
     **{n: Obj("exception_class", name=n) for n in ("ValueError", "NotImplementedError", "TypeError", "IndexError", "KeyError", "RuntimeError", "AssertionError", "ZeroDivisionError", "Exception", "AttributeError", "StopIteration")},
     "NotImplemented": NotImplemented,
     "print": lambda *a, **k: None,
+    "next": next,
+    "iter": iter,
+    "callable": callable,
     "hasattr": lambda o, n: (n in o.attrs) if isinstance(o, Obj) else False,
     "getattr": None,
     "id": id,
